@@ -73,6 +73,34 @@ pub fn drive(args: &[String]) {
     }
     let mut sink = Sink::create(&out);
     for (_, evs) in groups { for e in evs { sink.emit(e); } }
+    // (b2) reach: families (a symbol with its renumberings, judged without workspace) over samples of larger symbols:
+    // 2-D generator outputs with 7-8 chambers, 3-D D-sets with 4 chambers and random branching
+    {
+        let nfam = arg_usize(args, "--families", 600);
+        let mut pool: Vec<PartialDSym> = generated_2d_reach(0, 8, 1000, &mut rng).into_iter().filter(|s| s.size() >= 7).collect();
+        let n2 = pool.len();
+        pool.extend(sets_with_branching(3, 4, &[1, 2, 3, 4, 6], arg_usize(args, "--branchings", 12), &mut rng).into_iter().filter(|s| s.size() == 4));
+        eprintln!("C03 families: pool of {} 2-D and {} 3-D symbols", n2, pool.len() - n2);
+        pool.shuffle(&mut rng);
+        for s in pool.into_iter().take(nfam) {
+            let n = s.size();
+            let member = |t: &PartialDSym, perm: Option<&Vec<usize>>| -> Value {
+                let mut m = json!({"in": dsym_json(t), "perm": perm.map(|p| p[1..].to_vec()).unwrap_or_default()});
+                match catch(|| { let c = canonical(t); let map = minimal_traversal_code(t).get_map(); let fix = canonical(&c); (c, map, fix) }) {
+                    Ok((c, map, fix)) => { m["out"] = dsym_json(&c); m["map"] = json!(map[1..].to_vec()); m["fix"] = dsym_json(&fix); }
+                    Err(msg) => { m["panic"] = json!(msg); }
+                }
+                m
+            };
+            let mut members = vec![member(&s, None)];
+            for k in 0..4 {
+                // two transpositions and two random renumberings
+                let p = if k < 2 { let (a, b) = (rng.gen_range(1..=n), rng.gen_range(1..=n)); let mut p: Vec<usize> = (0..=n).collect(); p.swap(a, b); p } else { rand_perm(n, &mut rng) };
+                members.push(member(&renumber(&s, &p), Some(&p)));
+            }
+            sink.emit(json!({"ev": "canonical_family", "grp": format!("fam{}", sink.n / 200), "members": members}));
+        }
+    }
     // (c) large symbols: toroidal and finite universal covers, keyed by lineage
     let mut bigs: Vec<PartialDSym> = vec![];
     let mut cands: Vec<PartialDSym> = generated_2d(maxgen.max(4)).into_iter().filter(|s| s.size() >= 3).collect();
